@@ -85,6 +85,7 @@ def handleC12 (j : J) : J :=
       | _ => .null
     .obj [("ok", .bool (SdlText.descWrapOK w d)), ("okNarrow", .bool (SdlText.descTextOK w d)),
           ("value", J.ofText (BlockString.joinLF (SdlText.wrappedOf w d))), ("lines", .num (SdlText.wrappedOf w d).length),
+          ("fits", .bool ((SdlText.wrappedOf w d).all (fun l => l.length ≤ 120 - w))),
           ("lexed", lexed)]
   | _ => .obj [("error", .str "bad-op")]
 
